@@ -65,6 +65,15 @@ def dispatch(prog: Program, res: Result) -> None:
         desc = "an unrecognised key is rejected"
         last = fi.node.body[-1]
         rejects = isinstance(last, ast.Raise) or (isinstance(last, ast.Assert) and isinstance(last.test, ast.Constant) and last.test.value is False)
+        if not rejects:
+            # the rejection may sit in front of the last handled case (`if <not the remaining variant>: raise` ... `return <last case>`):
+            # then no path falls off the end, and some raise is not nested under a recognised variant
+            from ..guards import _always_leaves
+
+            def is_reject(st):
+                return isinstance(st, ast.Raise) or (isinstance(st, ast.Assert) and isinstance(st.test, ast.Constant) and st.test.value is False)
+            top_level_reject = any(isinstance(st, ast.If) and not st.orelse and st.body and is_reject(st.body[-1]) for st in fi.node.body)
+            rejects = _always_leaves(fi.node.body) and top_level_reject
         if rejects:
             res.ok("DISPATCH", short, desc, prog.loc(fi, last), nontrivial=False)
         else:
